@@ -23,11 +23,16 @@ class P(vlib.Prop):
                      "^TestVerifC11Shared$", "sharedcomponent"),
         vlib.Harness("sharedconc", "internal/sharedcomponent", ".", {"zz_verif_c11_test.go": "C11/shared_test.go"},
                      "^TestVerifC11SharedConc$", "sharedcomponent"),
+        vlib.Harness("sharedrace", "internal/sharedcomponent", ".",
+                     {"zz_verif_c11_test.go": "C11/shared_test.go", "zz_verif_c11race_test.go": "C11/sharedrace_test.go"},
+                     "^TestVerifC11SharedRace$", "sharedcomponent"),
         vlib.Harness("repair", "internal/sharedcomponent", ".",
                      {"zz_verif_c11_test.go": "C11/shared_test.go", "zz_verif_c11repair_test.go": "C11/repair_test.go"},
                      "^TestVerifC11Repair$", "sharedcomponent"),
         vlib.Harness("graph", "service", "./internal/graph/", {"zz_verif_c11_test.go": "C11/graph_test.go"},
                      "^TestVerifC11Graph$", "graph"),
+        vlib.Harness("instances", "service", "./internal/graph/", {"zz_verif_c11inst_test.go": "C11/instances_test.go"},
+                     "^TestVerifC11Instances$", "graph"),
         vlib.Harness("extensions", "service", "./extensions/", {"zz_verif_c11_test.go": "C11/ext_test.go"},
                      "^TestVerifC11Ext$", "extensions"),
     ]
@@ -44,6 +49,12 @@ class P(vlib.Prop):
             "independently in Go). "
             "shared: Start/report/late-Start/Shutdown scripts on the real sharedcomponent.Component; sharedconc: a report "
             "issued from another goroutine while a late instance is inside its replay (forced interleaving). "
+            "status additionally: every exhaustive script re-run with a watcher that panics after every delivery (differential oracle), "
+            "40% of the random scripts with a randomly faulting watcher. "
+            "sharedrace: 2-3 reports issued concurrently by a shared component with 2-4 instances, forced slow-host schedule + 3000 free "
+            "races, global arrival log vs SOME ordering (kind 6). "
+            "instances: the real Graph.createNodes/createConnector on 150 generated pipeline configurations with shared receivers / "
+            "exporters / connectors; (node, pipeline) pairs of g.instanceIDs vs inst_run (kind 7). "
             "repair: the PROPOSED repair of finding S3 (a verbatim copy of the patched hostWrapper inside the harness, not /repo) "
             "against its model sc2_run, late attaches after any number of reports in every status. "
             "extensions additionally: every ComponentStatusChanged call of 0-4 watcher extensions per run against "
@@ -63,13 +74,15 @@ class P(vlib.Prop):
         "harness conc paces its forced schedule by reading the state word of reporter.mu (sync.Mutex layout, Go 1.23) — pacing only, "
         "a wrong reading costs sensitivity, never soundness (the verdict is the linearisability search)",
         "modelled by hand, tied by correspondence: fsm.transition, reporter.ReportStatus/ReportOKIfStarting, hostWrapper.Report/addSource, "
-        "the status reports of graph.StartAll/ShutdownAll and Extensions.Start/Shutdown around component Start/Shutdown",
+        "the status reports of graph.StartAll/ShutdownAll and Extensions.Start/Shutdown around component Start/Shutdown, "
+        "Graph.createReceiver/createProcessor/createExporter/createConnector (instance identities), Extensions.NotifyComponentStatusChange",
     ]
     assumptions = [
         "each report is atomic (reporter.mu held across lookup, decision, transition and callback) — validated on every run by harness conc "
         "(linearisability of concurrently issued reports under a forced round-robin schedule and free races); "
         "check_then_act_auto_ok_refuted shows what fails without it",
         "sync.Mutex, sync.Once and container/ring behave as documented",
+        "hostWrapper.Report (ring push + fan-out to all sources) is atomic with respect to other reports; validated by harness sharedrace",
         "hostWrapper.addSource (replay + registration) is atomic with respect to hostWrapper.Report (both under hostWrapper.lock); validated by the forced interleaving of harness sharedconc",
     ]
 
